@@ -92,9 +92,10 @@ fn universe(tier: Tier) -> Universe {
         Tier::Quick => Universe {
             buckets: vec!["bkt-one".into()],
             keys: vec!["k1".into(), "d/k2".into()],
-            contents: vec![Arc::new(vec![]), Arc::new(b"x".to_vec())],
+            // empty, a few bytes (so that every Range form has a non-trivial slice), one byte more than the read buffer
+            contents: vec![Arc::new(vec![]), Arc::new(b"abcde".to_vec()), Arc::new((0..4097u32).map(|i| (i % 251) as u8).collect())],
             metas: vec![None, m],
-            part_contents: vec![Arc::new(b"P".to_vec())],
+            part_contents: vec![Arc::new(b"PQ".to_vec())],
             max_uploads_ever: 1,
             max_parts: 1,
         },
